@@ -58,7 +58,7 @@ CHECKS = {
                 "the four recovery clauses are evaluated; a sample of crash points also continues the remaining workload. "
                 "non-trivial = at least one crash point fell strictly inside an operation; distinct = distinct hash of the "
                 "workload trace (operation kinds and mutation ranges). faults_fired counts crash points.",
-        "required_probes": ["crash_inside_open", "crash_inside_register", "crash_inside_seal", "crash_inside_ann",
+        "required_probes": ["crash_inside_open", "crash_inside_register", "crash_inside_seal",
                             "continuation_checked"],
         "assumptions": COMMON_ASSUMPTIONS + ["durability unit = one datastore mutation that returned (weshnet never calls Sync); batches are atomic"],
     },
